@@ -58,6 +58,12 @@ def do_case(ctx, inp):
     rec = Recorder()
     list(o.select(*prios, solver=rec))
     poly, objs = rec.calls[0]
+    # what is reported back (all columns / leaf items only) is no part of the question put to the solver
+    rec_l = Recorder()
+    list(o.select(*prios, solver=rec_l, only_leafs=True))
+    if [list(map(int, w)) for w in rec_l.calls[0][1]] != [list(map(int, w)) for w in objs]:
+        ctx.fail("objective-depends-on-only_leafs", {"priorities": prios, "objectives": [list(map(int, w)) for w in objs],
+                                                     "with_only_leafs": [list(map(int, w)) for w in rec_l.calls[0][1]]}); return
     rows, avars = poly_snap(poly)
     ids = [v[0] for v in avars]
     dpv = [int(v) for v in np.asarray(poly.default_prio_vector).tolist()]
